@@ -93,6 +93,19 @@ func c06AddModule(g *Genome) {
 	g.ControlGenes = append(g.ControlGenes, NewMIMOGene(ctrl, int64(innov), m, vBool("module.enabled")))
 }
 
+// a second module with other endpoints and weights (state must not leak from one module's copy into the next)
+func c06AddSecondModule(g *Genome) {
+	ctrl := network.NewNNode(21, network.HiddenNeuron)
+	ctrl.ActivationType = neatmath.MaxModuleActivation
+	w := vFloat("module2.w")
+	vAssume(vAnd(w >= -tMaxW, w <= tMaxW))
+	ctrl.AddIncoming(g.Nodes[1], w)
+	ctrl.AddOutgoing(g.Nodes[2], 0.5)
+	innov := vInt("module2.innov")
+	vAssume(vAnd(innov > 0, innov <= tMaxInnov))
+	g.ControlGenes = append(g.ControlGenes, NewMIMOGene(ctrl, int64(innov), 0.25, vBool("module2.enabled")))
+}
+
 func c06Mutate(g *Genome, k int) {
 	opts := tOpts()
 	switch k {
@@ -125,6 +138,9 @@ func vc06(c tmplCfg, module bool, mutations int) {
 	g := tGenome("g", 7, c)
 	if module {
 		c06AddModule(g)
+		if mutations == 0 && vChoice("second module", 2) == 1 {
+			c06AddSecondModule(g)
+		}
 	}
 	s0, m0 := snap(g), snapModules(g)
 	d, err := g.duplicate(9)
